@@ -693,6 +693,9 @@ fn judge(cx: &mut Ctx, sub: &Subject<'_>, user: &[i32], out: &[u8], tuple: &[i16
                 cx.class("hvar:short-map-last-entry-reused");
             }
             cx.class(&format!("hvar:map-entry-size-{}", m.entry_size));
+            if m.inner_bits == 16 {
+                cx.class("hvar:map-inner-index-16-bits");
+            }
             if m.format == 1 {
                 cx.class("hvar:map-format-1");
             }
